@@ -169,12 +169,30 @@ def model_check(w, sub, tla, cfg, timeout=1800, coverage=False, label=None):
     zero = []
     if coverage:
         # actions never taken => vacuity
-        for m in re.finditer(r"<(\w+) line \d+, col \d+ to line \d+, col \d+ of module (\w+)>: (\d+):(\d+)", out):
-            if int(m.group(4)) == 0 and m.group(1) not in ("Init",):
-                zero.append(m.group(1))
+        for m in re.finditer(r"<(\w+) line (\d+), col \d+ to line \d+, col \d+ of module (\w+)>: (\d+):(\d+)", out):
+            if int(m.group(5)) == 0 and m.group(1) not in ("Init",):
+                zero.append("%s@%s:%s" % (m.group(1), m.group(3), m.group(2)))
     log("[mc] %s %s: %d generated, %d distinct, %.1fs%s" % (label or tla, cfg, gen, dist, dt,
                                                             (" UNUSED ACTIONS " + ",".join(zero)) if zero else ""))
     return dict(spec=tla, cfg=cfg, generated=gen, distinct=dist, wall_s=round(dt, 1), unused_actions=zero)
+
+
+def apalache(w, sub, tla, inv, cinit="CInit", init="Init", length=0, timeout=900):
+    """Symbolic (unbounded-integer) check of one invariant with Apalache; any outcome but NoError is inconclusive."""
+    d = w.copy_spec(sub)
+    out = w.path("apalache_%s_%s" % (tla.replace(".tla", ""), inv))
+    cmd = ["apalache-mc", "check", "--out-dir=" + out, "--cinit=" + cinit, "--init=" + init, "--inv=" + inv, "--length=%d" % length, tla]
+    t = time.time()
+    try:
+        p = subprocess.run(cmd, cwd=d, stdout=subprocess.PIPE, stderr=subprocess.STDOUT, text=True, timeout=timeout,
+                           env=dict(os.environ, JVM_ARGS="-Djava.io.tmpdir=" + w.path("jtmp")))
+    except subprocess.TimeoutExpired:
+        raise Inconclusive("apalache timed out on %s/%s" % (tla, inv))
+    if p.returncode != 0 or "The outcome is: NoError" not in p.stdout:
+        log(p.stdout[-3000:])
+        raise Inconclusive("apalache did not report NoError for %s/%s (rc=%d): a counterexample in the specification is a modelling problem" % (tla, inv, p.returncode))
+    log("[apalache] %s %s: NoError in %.1fs" % (tla, inv, time.time() - t))
+    return dict(spec=tla, invariant=inv, outcome="NoError", wall_s=round(time.time() - t, 1))
 
 
 MBT_PREFIX = '<<"MBT", "'
@@ -275,6 +293,12 @@ def validate(w, sub, tla, cfg, tracefile, timeout=1800, env=None):
 # ----------------------------------------------------------------------------
 # trace helpers, known findings, evidence
 # ----------------------------------------------------------------------------
+def never_taken(mcs):
+    """actions (name@module:line) that no configuration of the run ever took: vacuity"""
+    sets = [set(m["unused_actions"]) for m in mcs]
+    return sorted(set.intersection(*sets)) if sets else []
+
+
 def load_trace(path):
     return [json.loads(l) for l in open(path)]
 
